@@ -21,7 +21,7 @@ def corpus_cases():
 
 def streams(tier, seed):
     rng = random.Random(seed)
-    nrand = 1400 if tier == "quick" else 30000
+    nrand = 1000 if tier == "quick" else 30000
     maxn = 9 if tier == "quick" else 12
     rand = [tb.gen_case(rng, maxn) for _ in range(nrand)]
     exh = list(tb.exhaustive_cases(4))
@@ -67,7 +67,9 @@ def main(tier, seed):
     c["trusted_base"] += [
         "correspondence check: harness/comp/treebuild.py calls lingpy.algorithm.clustering.upgma/neighbor from /repo/src, "
         "records the tree matrix filled by _cluster._upgma/_neighbor (wrapping the function object), parses the two "
-        "Newick strings (parser in the harness), and compares inside Coq by vm_compute with Cluster/Upgma.upgma_rows, "
+        "Newick strings (parser in the harness), also runs _cluster._tree2nwk on the recorded tree matrix and reads the "
+        "tree objects of clustering.matrix2tree / LoadTree(treestring=...) (children, Name, Length, getTipNames, taxa, "
+        "str(tree)), and compares inside Coq by vm_compute with Cluster/Upgma.upgma_rows, "
         "Cluster/Neighbor.nj_rows and Cluster/Nwk.nwk",
         "exactness-grid argument (DESIGN 2.1): distances are multiples of 1/8 (1/16 for tree heights); UPGMA quotient "
         "comparisons coincide with exact ones; NJ decisions are compared only where N-2 is a power of two or the exact "
